@@ -1,9 +1,10 @@
 SPECIFICATION Spec
 CONSTANTS
-  Params <- MCParams1
-  Vals <- MCVals3
+  Params <- ParamsKeys
+  Vals <- ValsK
   MaxB = 2
-  MaxRows = 4
+  MaxRows = 3
+  Ops <- AllOps
   Variant = "chan"
   Depth = 0
 INVARIANT MomentsDef
